@@ -559,9 +559,15 @@ def prove_bound(st, t, B, depth=0):
     if op == "concat":
         return all(prove_bound(st, x, B, depth + 1) for x in t[1:])
     if op == "sac":
-        return prove_bound(st, t[1], B, depth + 1) and (st.ge(B, t[3] + 1) or st.eq(t_len(t[2]), 0))
+        if prove_bound(st, t[1], B, depth + 1) and (st.ge(B, t[3] + 1) or st.eq(t_len(t[2]), 0)):
+            return True
     if op == "sa":
-        return prove_bound(st, t[1], B, depth + 1) and prove_bound(st, t[3], B, depth + 1)
+        if prove_bound(st, t[1], B, depth + 1) and prove_bound(st, t[3], B, depth + 1):
+            return True
+    if op == "upd" and len(t) == 5 and t[3] == () and t[4][0] == "nat":
+        # one element overwritten: the old bound still holds if the new element respects it
+        if prove_bound(st, t[1], B, depth + 1) and st.ge(B, as_poly(t[4][1]) + 1):
+            return True
     if op == "shift":
         if prove_bound(st, t[2], B - t[1], depth + 1):
             return True
